@@ -4,7 +4,8 @@ import json,os,re,subprocess,glob
 H=os.path.dirname(os.path.dirname(os.path.abspath(__file__)))
 os.makedirs(H+"/findings/fixes",exist_ok=True)
 n=0
-for d in sorted(glob.glob(H+"/seeded/*")):
+for d in sorted(glob.glob(H+"/seeded/*/")):
+    d=d.rstrip("/")
     m=json.load(open(d+"/meta.json"))
     name=os.path.basename(d)
     det=m.get("detected_by","")
@@ -22,6 +23,7 @@ fixes={
  "514bd71":[("C01","C01.R1")],"1becf73":[("C03","C03.R4"),("C14","C14.R6")],"fa2f268":[("C03","C03.R7"),("C04","C04.R3")],
  "11ce54a":[("C06","C06.R1")],"80d9c7a":[("C04","C04.R2"),("C05","C05.R3")],"cd5588d":[("C13","C13.R5")],
  "bfd5750":[("C14","C14.R1")],"49e3b68":[("C14","C14.R4")],"be2cdaf":[("C14","C14.R3")],"5f1a353":[("C23","C23.R1")],
+ "d11c029":[("C36","C36.R1")],"fca4c01":[("C14","C14.R7")],"307d59c":[("C14","C14.R8")],"5523bab":[("C06","C06.R1")],
  "9585008":[("C34","C34.R1")],"42a53da":[("C35","C35.R1")],"342bb8c":[("C29","C29.R5")],"023da26":[("C15","C15.R5")],
 }
 for c,targets in fixes.items():
